@@ -150,6 +150,56 @@ def formal_sum_dom(ctx, root, dom, summand):
     return sym, d
 
 
+class StatDef:
+    def __init__(self, kind, sym, space, dom, terms, extra):
+        self.kind, self.sym, self.space, self.dom, self.terms, self.extra = kind, sym, space, dom, terms, extra
+
+
+def formal_stat(ctx, kind, root, dom, terms, extra=()):
+    """an order-insensitive statistic `kind` of the rows {u in root : dom(u)} with per-row data `terms` (and scalar
+    parameters `extra`): an uninterpreted function of the group-key parameters; the same (universally equivalent) rows
+    and data give the same symbol, anything else a fresh one -- nothing else is known about the value"""
+    dom = z3.simplify(dom)
+    terms = [z3.simplify(t) for t in terms]
+    extra = [z3.simplify(e) for e in extra]
+    reg = ctx.__dict__.setdefault("_stats", [])
+    for d in reg:
+        if d.kind != kind or d.space is not root or len(d.terms) != len(terms) or len(d.extra) != len(extra):
+            continue
+        if not all(a.sort() == b.sort() for a, b in zip(d.terms + d.extra, terms + extra)):
+            continue
+        if z3.eq(d.dom, dom) and all(z3.eq(a, b) for a, b in zip(d.terms + d.extra, terms + extra)):
+            return d.sym, d
+        s_ = z3.Solver()
+        s_.set("timeout", 800)
+        s_.add(z3.Or(dom != d.dom, z3.And(dom, z3.Or(*[a != b for a, b in zip(d.terms, terms)])) if terms else z3.BoolVal(False), *[a != b for a, b in zip(d.extra, extra)]))
+        if s_.check() == z3.unsat:
+            nd = StatDef(kind, d.sym, root, dom, terms, extra)
+            reg.append(nd)
+            return d.sym, nd
+    ps = _params([dom] + terms, [root.u])
+    args = ps + list(extra)
+    if args:
+        f = z3.Function(fresh_name(f"{kind}_{root.name}"), *([a.sort() for a in args] + [z3.RealSort()]))
+        sym = f(*args)
+    else:
+        sym = z3.Real(fresh_name(f"{kind}_{root.name}"))
+    d = StatDef(kind, sym, root, dom, terms, extra)
+    reg.append(d)
+    return sym, d
+
+
+def lemma_stat_congr(ctx, a, b, guard=None, name="stat_congr"):
+    """two statistics of the same kind over the same rows with the same data (under `guard`) are equal"""
+    _use("stat_congr (a statistic is a function of the multiset of its rows' data)")
+    if a.space is not b.space or a.kind != b.kind:
+        raise Undecided("stat_congr over different spaces / kinds")
+    g = guard if guard is not None else z3.BoolVal(True)
+    same = z3.And(a.dom == b.dom, z3.Implies(a.dom, z3.And(*[x == y for x, y in zip(a.terms, b.terms)])) if a.terms else z3.BoolVal(True), *[x == y for x, y in zip(a.extra, b.extra)])
+    ctx.oblige(name + "/side.pointwise", z3.Implies(z3.And(g, *a.space.facts()), same), kind="lemma-side")
+    ctx.assume(z3.Implies(g, a.sym == b.sym))
+
+
 def axis_sum(ctx, axis, term):
     """Σ over the rows of a frames.RowAxis / SubSpace / Space of `term` (a z3 term over the generic row)"""
     from .frames import RowAxis
@@ -415,6 +465,16 @@ def lemma_sum_bound(ctx, d, n_term, lo=None, hi=None, name="sum_bound"):
     if hi is not None:
         _pointwise(ctx, name + "/side.upper", d, d.summand <= hi)
         ctx.assume(d.sym <= real(n_term) * hi)
+
+
+def lemma_sum_ge_member(ctx, d, row, subs=(), name="sum_ge_member"):
+    """Σ_A f >= f(r) for a row r of A when f >= 0 on A (Finset.single_le_sum); `subs` instantiates group parameters"""
+    _use("sum_ge_member (Finset.single_le_sum: non-negative summands)")
+    _pointwise(ctx, name + "/side.nonneg", d, d.summand >= 0)
+    sp = d.space
+    sym = z3.substitute(d.sym, *subs) if subs else d.sym
+    at = lambda t: z3.substitute(t, (sp.u, row), *subs)  # noqa: E731
+    ctx.assume(z3.Implies(z3.And(row >= 0, row < sp.n, at(d.dom)), sym >= at(d.summand)))
 
 
 def lemma_sum_nonneg(ctx, d, name="sum_nonneg"):
